@@ -219,6 +219,20 @@ def dup_named():
     return out
 
 
+def reorder_doc():
+    """blocks with two storage accesses whose keys come from the stack, and for each a hand-made log entry that performs the same
+    accesses in the opposite order with the stack shuffled so that every operation still gets its own operands (a tampered log that
+    is correct as far as the stack goes): (document, [(honest id sequence, tampered id sequence)])"""
+    it = lambda n, v=None, **kw: dict({"begin": 1, "end": 2, "name": n, "source": 0}, **({"value": v} if v is not None else {}), **kw)
+    run = [it("tag", "1"), it("JUMPDEST"), it("SSTORE"), it("SLOAD"), it("PUSH", "0"), it("ADD"), it("SWAP1"), it("JUMP", None, jumpType="[out]"),
+           it("tag", "2"), it("JUMPDEST"), it("SSTORE"), it("SSTORE"), it("PUSH", "0"), it("ADD"), it("SWAP1"), it("JUMP", None, jumpType="[out]")]
+    top = [it("PUSH", "80"), it("PUSH", "40"), it("MSTORE"), it("PUSH", "0"), it("DUP1"), it("REVERT")]
+    doc = {"contracts": {"r.sol:R": {"asm": {".code": top, ".data": {"0": {".auxdata": "a1", ".code": run}}}}}, "version": "0.8.15+commit.e14f2714"}
+    edits = [(["SSTORE_0", "SLOAD_0", "SWAP1"], ["SWAP2", "SLOAD_0", "SWAP2", "SSTORE_0", "SWAP1"]),
+             (["SSTORE_0", "SSTORE_1", "SWAP1"], ["SWAP2", "SWAP1", "SWAP3", "SWAP1", "SSTORE_0", "SSTORE_1", "SWAP1"])]
+    return ("reorder0.json_solc", doc), edits
+
+
 def multi_section():
     """a contract whose `.data` holds two code-bearing sub-assemblies ("0" runtime, "1" the creation code of a contract deployed with `new`)
     and a second contract with an empty `.data`: every section keeps its own instruction stream"""
